@@ -21,7 +21,10 @@ PROPS = {
         "engines": [{"name": "tid", "quick": 8, "thorough": 40},
                     # the ids on the wire: every query a real node sends is checked by the [C19] oracle
                     # (8 bytes; one id goes to one address once; only a bootstrap first round shares its id)
-                    {"name": "node", "quick": 42, "thorough": 140, "oracle_tag": "C19"}],
+                    {"name": "node", "quick": 42, "thorough": 140, "oracle_tag": "C19"},
+                    # which action ids the handler's activities hold: the refresh's id was drawn from the generator
+                    # (it is not among the ids later activities will get), live searches have distinct ids
+                    {"name": "handler", "quick": 160, "thorough": 1500, "oracle_tag": "C19"}],
         "constants": ["ACTION_ID_BYTES", "MESSAGE_ID_BYTES", "ACTION_ID_PREALLOC_LEN", "MESSAGE_ID_PREALLOC_LEN"],
         "trusted": COMMON_TRUST + ["the shuffle of each id block is an arbitrary permutation (oracle input read through the hook accessor)"],
         "assumptions": ["rand's shuffle returns a permutation of the block"],
